@@ -527,6 +527,15 @@ type bfsInfo struct {
 	StatesPerLevel       []int            `json:"new_states_per_level"`
 	WallS                float64          `json:"wall_s"`
 	ViolatingTransitions map[string]int64 `json:"violating_transitions_by_fingerprint,omitempty"`
+	Inconclusive         []string         `json:"inconclusive_transitions,omitempty"`
+}
+
+func pointChoices(p []vx.Point) []int {
+	r := make([]int, len(p))
+	for i, x := range p {
+		r[i] = x.C
+	}
+	return r
 }
 
 type taskRes struct {
@@ -668,6 +677,9 @@ func (e *envT) bfs(p *scenario, deadline time.Time) (*vx.Stats, bfsInfo) {
 					info.FaultProbes++
 				}
 				if d.main.inconcl != "" {
+					if info.Inconclusive = append(info.Inconclusive, p.where(n.init, n.path)+" then `"+p.Ops[oi].Name+"`: "+d.main.inconcl); len(info.Inconclusive) <= 5 {
+						fmt.Printf("INCONCLUSIVE %s\n   choices=%v\n", info.Inconclusive[len(info.Inconclusive)-1], pointChoices(p.points(n.init, path, 0)))
+					}
 					st.Exhaustive = false
 					if st.CapHit == "" {
 						st.CapHit = "a tool timeout left a transition inconclusive (its successor was not expanded)"
